@@ -45,7 +45,7 @@ theorem and_pred_eq_mod : ∀ (b : Nat), 0 < b → b &&& (b - 1) = 0 → ∀ a, 
       subst this
       simp [Nat.mod_one]
 
-theorem W_eq : W = 2 ^ 64 := by decide
+theorem W_eq : W = 2 ^ 64 := by rfl
 
 /-- `fastmod` computes `a % b` for every `size_t` pair (also `b = 0`, where C yields `a`, and
     non-powers of two, where it takes the `%` branch). -/
@@ -53,7 +53,7 @@ theorem fastmod_eq_mod {a b : Nat} (ha : a < W) (hb : b < W) : fastmod a b = a %
   unfold fastmod
   by_cases h0 : b = 0
   · subst h0
-    have : sub64 0 1 = 2 ^ 64 - 1 := by decide
+    have : sub64 0 1 = 2 ^ 64 - 1 := by rfl
     rw [this]
     simp only [Nat.zero_and, ↓reduceIte, Nat.mod_zero]
     rw [Nat.and_two_pow_sub_one_eq_mod]
@@ -67,8 +67,8 @@ theorem fastmod_eq_mod {a b : Nat} (ha : a < W) (hb : b < W) : fastmod a b = a %
 theorem add64_eq {a b : Nat} (h : a + b < W) : add64 a b = a + b := Nat.mod_eq_of_lt h
 theorem sub64_eq {a b : Nat} (ha : a < W) (h : b ≤ a) : sub64 a b = a - b := by
   unfold sub64 W at *; omega
-theorem add64_lt (a b : Nat) : add64 a b < W := Nat.mod_lt _ (by decide)
-theorem sub64_lt (a b : Nat) : sub64 a b < W := Nat.mod_lt _ (by decide)
+theorem add64_lt (a b : Nat) : add64 a b < W := Nat.mod_lt _ (by unfold W; omega)
+theorem sub64_lt (a b : Nat) : sub64 a b < W := Nat.mod_lt _ (by unfold W; omega)
 
 theorem sub_mod_self_mod (a b : Nat) : (a - a % b) % b = 0 := by
   have h : a - a % b = b * (a / b) := by
@@ -87,6 +87,10 @@ theorem sai_eq (c : Cfg) (bot tp lim size al : Nat) (hal : al < W) :
   unfold stackAllocInternal
   simp only [fastmod_eq_mod (sub64_lt _ _) hal]
 
+theorem sub64_cases (a b : Nat) (ha : a < W) (hb : b < W) :
+    (b ≤ a ∧ sub64 a b = a - b) ∨ (a < b ∧ sub64 a b = a + W - b) := by
+  unfold sub64 W at *; omega
+
 /-- Specification of a successful `stackallocinternal` under the no-wrap side condition
     `size + al + 2*rz ≤ 2^64`: the block `[start, start+size)` with its two red zones lies in
     `[newTop, tp)`, `newTop` is not below `lim`, and `start` is a multiple of `al`. -/
@@ -98,19 +102,178 @@ theorem sai_some {c : Cfg} {bot tp lim size al start newTop usage : Nat}
       ∧ tp - newTop < size + al + 2 * c.rz := by
   rw [sai_eq c bot tp lim size al (by omega)] at h
   simp only at h
-  have hm : (sub64 tp (add64 size c.rz)) % al < al := Nat.mod_lt _ hal
-  have hm2 : (sub64 tp (add64 size c.rz)) % al ≤ sub64 tp (add64 size c.rz) := Nat.mod_le _ _
-  have hdiv := sub_mod_self_mod (sub64 tp (add64 size c.rz)) al
-  generalize (sub64 tp (add64 size c.rz)) % al = m at *
+  have hA : add64 size c.rz = size + c.rz := add64_eq (by omega)
+  rw [hA] at h
+  have hm : (sub64 tp (size + c.rz)) % al < al := Nat.mod_lt _ hal
+  have hm2 : (sub64 tp (size + c.rz)) % al ≤ sub64 tp (size + c.rz) := Nat.mod_le _ _
+  have hdiv := sub_mod_self_mod (sub64 tp (size + c.rz)) al
+  have hs0 := sub64_cases tp (size + c.rz) (by omega) (by omega)
+  have hs0lt := sub64_lt tp (size + c.rz)
+  generalize (sub64 tp (size + c.rz)) % al = m at *
+  generalize sub64 tp (size + c.rz) = start0 at *
+  rw [sub64_eq hs0lt hm2] at h
+  have hnt := sub64_cases (start0 - m) c.rz (by omega) (by omega)
+  have hntlt := sub64_lt (start0 - m) c.rz
+  generalize sub64 (start0 - m) c.rz = nt at *
+  have hreq := sub64_cases tp nt (by omega) hntlt
+  have hav : sub64 tp lim = tp - lim := sub64_eq (by omega) hlim
+  rw [hav] at h
+  generalize sub64 tp nt = req at *
   split at h
   · exact absurd h (by simp)
-  · next hreq =>
+  · next hle =>
     simp only [Option.some.injEq, Prod.mk.injEq] at h
     obtain ⟨h1, h2, _⟩ := h
-    have hst : start = sub64 tp (add64 size c.rz) - m := by
-      rw [← h1]; exact sub64_eq (sub64_lt _ _) hm2
-    refine ⟨?_, ?_, ?_, ?_, ?_⟩
-    all_goals (try (rw [hst]; exact hdiv))
-    all_goals (subst h1 h2; unfold sub64 add64 W at *; omega)
+    subst h1 h2
+    refine ⟨?_, ?_, ?_, hdiv, ?_⟩ <;> omega
+
+/-- largest multiple of `al` below `x`: every multiple of `al` that is `≤ x` is `≤ x - x % al`. -/
+theorem le_sub_mod_of_dvd {p x al : Nat} (hp : p % al = 0) (hle : p ≤ x) : p ≤ x - x % al := by
+  by_cases hal : al = 0
+  · subst hal; simp at hp; omega
+  have h1 : p = al * (p / al) := by have := Nat.div_add_mod p al; omega
+  have h2 : x - x % al = al * (x / al) := by have := Nat.div_add_mod x al; omega
+  rw [h1, h2]
+  exact Nat.mul_le_mul_left _ (Nat.div_le_div_right hle)
+
+/-- A stack overflow is reported by `stackallocinternal` only when no aligned block with its red
+    zones fits between `lim` and `tp` (no-wrap side condition as in `sai_some`). -/
+theorem sai_none {c : Cfg} {bot tp lim size al : Nat}
+    (htp : tp + 2 * c.rz < W) (hlim : lim ≤ tp) (hsz : 0 < size) (hal : 0 < al)
+    (hnw : size + al + 2 * c.rz ≤ W)
+    (h : stackAllocInternal c bot tp lim size al = none) :
+    ¬ ∃ p, p % al = 0 ∧ lim + c.rz ≤ p ∧ p + size + c.rz ≤ tp := by
+  rintro ⟨p, hp, hp1, hp2⟩
+  rw [sai_eq c bot tp lim size al (by omega)] at h
+  simp only at h
+  have hA : add64 size c.rz = size + c.rz := add64_eq (by omega)
+  rw [hA] at h
+  have hs0 : sub64 tp (size + c.rz) = tp - (size + c.rz) := sub64_eq (by omega) (by omega)
+  rw [hs0] at h
+  have hple := le_sub_mod_of_dvd (x := tp - (size + c.rz)) hp (by omega)
+  have hm2 : (tp - (size + c.rz)) % al ≤ tp - (size + c.rz) := Nat.mod_le _ _
+  generalize (tp - (size + c.rz)) % al = m at *
+  rw [sub64_eq (by omega) hm2] at h
+  rw [sub64_eq (a := tp - (size + c.rz) - m) (by omega) (by omega)] at h
+  rw [sub64_eq (a := tp) (b := tp - (size + c.rz) - m - c.rz) (by omega) (by omega)] at h
+  rw [sub64_eq (a := tp) (b := lim) (by omega) hlim] at h
+  split at h
+  · omega
+  · exact absurd h (by simp)
+
+/-- the next multiple of `al` at or above `x` is `x + pad` with this `pad`. -/
+theorem pad_spec (x al : Nat) (hal : 0 < al) :
+    let pad := if x % al ≠ 0 then al - x % al else 0
+    pad < al ∧ (x + pad) % al = 0 ∧ ∀ off, off % al = 0 → x ≤ off → x + pad ≤ off := by
+  intro pad
+  have hm : x % al < al := Nat.mod_lt _ hal
+  have hm2 : x % al ≤ x := Nat.mod_le _ _
+  have hdiv := sub_mod_self_mod x al
+  by_cases h0 : x % al = 0
+  · have hp : pad = 0 := by simp [pad, h0]
+    rw [hp]; refine ⟨hal, by simpa using h0, fun off _ h => by omega⟩
+  · have hp : pad = al - x % al := by simp [pad, h0]
+    rw [hp]
+    refine ⟨by omega, ?_, ?_⟩
+    · have e : x + (al - x % al) = (x - x % al) + al := by omega
+      rw [e, Nat.add_mod_right]; exact hdiv
+    · intro off hoff hle
+      have hq : x = al * (x / al) + x % al := (Nat.div_add_mod x al).symm
+      have hk : off = al * (off / al) := by have := Nat.div_add_mod off al; omega
+      have hlt : x / al < off / al := by
+        apply Nat.lt_of_not_le
+        intro hcon
+        have := Nat.mul_le_mul_left al hcon
+        omega
+      have := Nat.mul_le_mul_left al (Nat.succ_le_of_lt hlt)
+      rw [Nat.mul_succ] at this
+      omega
+
+/-- Specification of `mj_arenaAllocByte` under the no-wrap side condition
+    `parena + al + bytes < 2^64`: with `pad` the distance to the next multiple of `al`, the call
+    returns NULL and leaves the state unchanged iff `parena + pad + bytes > narena - pstack`. -/
+theorem arenaAlloc_spec {c : Cfg} {s : State} {bytes al : Nat}
+    (hc : c.base + c.narena < W) (hinv : s.parena + s.pstack ≤ c.narena) (hal : 0 < al)
+    (hnw : s.parena + al + bytes < W) :
+    let pad := if s.parena % al ≠ 0 then al - s.parena % al else 0
+    if s.parena + pad + bytes > c.narena - s.pstack then arenaAlloc c s bytes al = (.null, s)
+    else arenaAlloc c s bytes al =
+      (.ptr (c.base + s.parena + pad),
+       { s with parena := s.parena + pad + bytes,
+                maxArena := max s.maxArena (add64 s.pstack (s.parena + pad + bytes)) }) := by
+  intro pad
+  have hpl : pad < al := (pad_spec s.parena al hal).1
+  unfold arenaAlloc
+  rw [fastmod_eq_mod (by omega) (by omega)]
+  have hm : s.parena % al < al := Nat.mod_lt _ hal
+  have hav : sub64 c.narena s.pstack = c.narena - s.pstack := sub64_eq (by omega) (by omega)
+  have hpad : (if s.parena % al ≠ 0 then sub64 al (s.parena % al) else 0) = pad := by
+    simp only [pad]
+    split
+    · exact sub64_eq (by omega) (by omega)
+    · rfl
+  simp only [hpad, hav]
+  rw [add64_eq (a := s.parena) (b := pad) (by omega), add64_eq (a := s.parena + pad) (by omega)]
+  split
+  · rfl
+  · rw [add64_eq (a := c.base) (by omega), add64_eq (a := c.base + s.parena) (by omega),
+        add64_eq (a := pad) (by omega), add64_eq (a := s.parena) (by omega)]
+    simp only [Nat.add_assoc]
+
+/-- Specification of the `d->threadlock` path of `stackalloc` under the no-wrap side condition
+    `pstack + size + al + 2*rz < 2^64`: the reservation `A = size + al - 1 + 2*rz` is always added to
+    `pstack` (also when the overflow error is raised); a granted block lies, with its red zones,
+    inside the reserved interval `[bottom - (pstack + A), bottom - pstack)`. -/
+theorem lockedAlloc_spec {c : Cfg} {s : State} {size al : Nat}
+    (hc : c.base + c.narena < W) (hlock : s.threadlock = true) (hpa : s.parena ≤ c.narena)
+    (hsz : 0 < size) (hal : 0 < al) (hnw : s.pstack + size + al + 2 * c.rz < W) :
+    if s.pstack + (size + al - 1 + 2 * c.rz) > c.narena - s.parena then
+      stackAlloc c s size al = (.error, { s with pstack := s.pstack + (size + al - 1 + 2 * c.rz) })
+    else ∃ a, stackAlloc c s size al =
+        (.ptr a, { s with pstack := s.pstack + (size + al - 1 + 2 * c.rz) })
+      ∧ a % al = 0
+      ∧ c.base + c.narena - (s.pstack + (size + al - 1 + 2 * c.rz)) + c.rz ≤ a
+      ∧ a + size + c.rz ≤ c.base + c.narena - s.pstack := by
+  unfold stackAlloc
+  simp only [show ¬ size = 0 by omega, hlock, ↓reduceIte]
+  have h1 : add64 size al = size + al := add64_eq (by omega)
+  have h2 : sub64 (size + al) 1 = size + al - 1 := sub64_eq (by omega) (by omega)
+  have h3 : add64 (size + al - 1) (2 * c.rz) = size + al - 1 + 2 * c.rz := add64_eq (by omega)
+  have h4 : add64 s.pstack (size + al - 1 + 2 * c.rz) = s.pstack + (size + al - 1 + 2 * c.rz) :=
+    add64_eq (by omega)
+  have h5 : sub64 c.narena s.parena = c.narena - s.parena := sub64_eq (by omega) hpa
+  have hb : bottom c = c.base + c.narena := add64_eq hc
+  simp only [h1, h2, h3, h4, h5, hb]
+  split
+  · rfl
+  · next hfit =>
+    have e1 : sub64 (c.base + c.narena) s.pstack = c.base + c.narena - s.pstack :=
+      sub64_eq hc (by omega)
+    have e2 : sub64 (c.base + c.narena - s.pstack) size = c.base + c.narena - s.pstack - size :=
+      sub64_eq (by omega) (by omega)
+    have e3 : sub64 (c.base + c.narena - s.pstack - size) c.rz
+        = c.base + c.narena - s.pstack - size - c.rz := sub64_eq (by omega) (by omega)
+    simp only [e1, e2, e3]
+    have hlt : c.base + c.narena - s.pstack - size - c.rz < W := by omega
+    rw [fastmod_eq_mod hlt (by omega)]
+    have hm : (c.base + c.narena - s.pstack - size - c.rz) % al < al := Nat.mod_lt _ hal
+    have hm2 := Nat.mod_le (c.base + c.narena - s.pstack - size - c.rz) al
+    have hdiv := sub_mod_self_mod (c.base + c.narena - s.pstack - size - c.rz) al
+    rw [sub64_eq hlt hm2]
+    refine ⟨_, rfl, hdiv, ?_, ?_⟩ <;> omega
+
+/-- Specification of the unlocked path of `stackalloc`. -/
+theorem stackAlloc_unlocked {c : Cfg} {s : State} {size al : Nat}
+    (hlock : s.threadlock = false) (hsz : size ≠ 0) :
+    stackAlloc c s size al =
+      match stackAllocInternal c (bottom c) (top c s) (limit c s) size al with
+      | none => (.error, s)
+      | some (start, newTop, usage) =>
+        (.ptr start, { s with pstack := sub64 (bottom c) newTop,
+                              maxStack := max s.maxStack usage,
+                              maxArena := max s.maxArena (add64 usage s.parena) }) := by
+  unfold stackAlloc
+  simp only [hsz, hlock, ↓reduceIte, Bool.false_eq_true]
+  rfl
 
 end MjProof.Arena
